@@ -641,19 +641,34 @@ func (t *Target) gnmiRemove(n *pb.Notification) []*ctree.Leaf {
 		t.meta.ResetEntry(path[1])
 	}
 	var leaves []*ctree.Leaf
+	var deleted int64
 	f := func(v interface{}) {
 		d := v.(*pb.Notification)
 		leaves = append(leaves, ctree.DetachedLeaf(toDeleteNotification(d, n.GetTimestamp())))
+		// Metadata leaves are not part of the target's leaf count.
+		if !isMetaLeaf(d) {
+			deleted++
+		}
 	}
 	t.t.WalkDeleted(path, func(v interface{}) bool { return v.(*pb.Notification).GetTimestamp() < n.GetTimestamp() }, f)
 	verifPoint("cache.remove.walked", t.name)
 	if len(leaves) == 0 {
 		return nil
 	}
-	deleted := int64(len(leaves))
 	t.meta.AddInt(metadata.LeafCount, -deleted)
 	t.meta.AddInt(metadata.DelCount, deleted)
 	return leaves
+}
+
+// isMetaLeaf reports whether the stored notification n is indexed under the
+// metadata root, using the same index path gnmiUpdate stored it with.
+func isMetaLeaf(n *pb.Notification) bool {
+	var suffix *pb.Path
+	if !n.GetAtomic() && len(n.GetUpdate()) > 0 {
+		suffix = n.GetUpdate()[0].GetPath()
+	}
+	p := joinPrefixAndPath(n.GetPrefix(), suffix)
+	return len(p) > 0 && p[0] == metadata.Root
 }
 
 // updateCache calls fn for each Target.
